@@ -129,6 +129,10 @@ MUTANTS = [
     ('C16-first-repetition-only', ['C16'], 'dataquery.py',
      "                sub_nodes = self.filter_for_nodes(member_nodes, path_component)\n                if not sub_nodes:\n                    continue\n",
      "                first = self.filter_for_indices(node.members[:node.descriptor.n_members], path_component)\n                sub_nodes = [member_nodes[k] for k in first]\n                if not sub_nodes:\n                    continue\n"),
+    # --- seventh round
+    ('C20-table-a-fixed-offset', ['C20'], 'dataprocessor.py', "itertools.count(n_repeats * 3 + (1 if is_delayed_replication else 0))", "itertools.count(n_repeats * 3 + 1 if is_delayed_replication else 0)"),
+    ('C07-237255-guarded', ['C07', 'C01'], 'coder.py', "            else:  # 255 cancel re-used bitmap\n                state.cancel_bitmap()\n",
+     "            else:  # 255 cancel re-used bitmap\n                if state.most_recent_bitmap_is_for_reuse:\n                    state.cancel_bitmap()\n"),
 ]
 
 # (id, checks that must stay silent, file, old, new)
